@@ -190,7 +190,42 @@ def c10(cx):
                 what="real client parser on genuine replies, every single-bit flip, truncations, extensions, re-signings, rogue-signed variants")
 
 
-PLANS = {"C01": c01, "C02": c02, "C03": c03, "C04": c04, "C06": c06, "C07": c07, "C09": c09, "C10": c10, "C16": c16, "C18": c18, "C19": c19, "C20": c20}
+def c11(cx):
+    cx.assumptions += ["servers are harness TCP endpoints with their own keys (a rogue authorized server = an endpoint signing arbitrary replies with its real key)",
+                       "a hanging server is modelled with a bounded delay (400 ms); the client has no read deadline, an endpoint that never answers keeps "
+                       "that one sync goroutine waiting while the report loop goes on (checked by the loop probe)"]
+    q = cx.tier == QUICK
+    cx.mc("MC_ClientSrv", "MC_ClientSrv.cfg", {"CDefects": "{}", "MaxRounds": 2 if q else 3},
+          note="1..3 servers, every banned subset, every pick order and failure pattern over <=5 attempts, replies with lists and "
+               "migration orders, restarts; NeverSelectBanned asserted at every pick, LockFreeWhenIdle, BannedMonotone")
+    cx.mc("MC_SyncReply", "MC_SyncReply.cfg", {"CDefects": "{}"}, workers=4, note="no reply shape reaches the parser's PANIC outcome")
+    r = cx.drv_ok("rounds", ["--only", "fault"])
+    cx.validate("Trace_Round", "Trace_Round.cfg", r["trace"],
+                what="sync rounds against endpoints that refuse / reset / answer short / hang / sign wrongly / answer as rogue servers "
+                     "(short, garbage list, unsigned entry, bad migration, random bytes, empty), all-banned and all-failed configurations; "
+                     "lock probe and report-loop probe after every round; unattended re-sync count")
+    r = cx.drv_ok("syncparse")
+    cx.validate("Trace_Sync", "Trace_Sync.cfg", r["trace"] + ".parse", what="parser on every single-bit flip / truncation / rogue-signed variant (no panic)")
+
+
+def c17(cx):
+    cx.assumptions += ["signatures abstract (ground truth from the harness's signing record)"]
+    q = cx.tier == QUICK
+    cx.mc("MC_ClientSrv", "MC_ClientSrv.cfg", {"CDefects": "{}", "MaxRounds": 2 if q else 3},
+          note="MigrateOnlyIfDoublySigned, ListOnlyBySignature asserted at every applied reply; EntryFrozenUnlessBan, BannedMonotone "
+               "(memory and disk), PersistEqualsAdopted")
+    r = cx.drv_ok("rounds", ["--only", "lists"])
+    cx.validate("Trace_Round", "Trace_Round.cfg", r["trace"],
+                what="client: lists (new, changed ports, outsider-signed, ban, un-ban attempt, ban+stale entry) and migration orders "
+                     "(invalid outer, invalid inner, other device, same GCA, valid; afterwards lists by old/new GCA) with restarts; files decoded after every step")
+    r = cx.drv_ok("srvlist")
+    cx.validate("Trace_Server", "Trace_C17.cfg", r["trace"],
+                what="server: sequences of server-authorization posts, list and sync reply after each")
+    r = cx.drv_ok("equip", ["--only", "reg"])
+    cx.validate("Trace_Server", "Trace_C17.cfg", r["trace"], what="server: server authorizations and migration orders signed by each candidate key")
+
+
+PLANS = {"C01": c01, "C02": c02, "C03": c03, "C04": c04, "C06": c06, "C07": c07, "C09": c09, "C10": c10, "C11": c11, "C16": c16, "C17": c17, "C18": c18, "C19": c19, "C20": c20}
 
 
 def replay(cx, path):
